@@ -84,7 +84,9 @@ func H_bpm() {
 	fset := new(token.FileSet)
 	hasher := typeutil.MakeHasher()
 
-	given := types.NewTuple(types.NewVar(token.NoPos, nil, "g0", ty(sG0)), types.NewVar(token.NoPos, nil, "g1", ty(sG1)))
+	// injector parameters may be named, blank or unnamed
+	argNames := [][2]string{{"g0", "g1"}, {"_", "g1"}, {"_", "_"}, {"", ""}}[vConc(vInt("argNames", 0, 3))]
+	given := types.NewTuple(types.NewVar(token.NoPos, nil, argNames[0], ty(sG0)), types.NewVar(token.NoPos, nil, argNames[1], ty(sG1)))
 	T := &ProviderSet{PkgPath: "example.com/h", InjectorArgs: &InjectorArgs{Name: "inject", Tuple: given}}
 	A := &ProviderSet{PkgPath: "example.com/h", VarName: "A"}
 	B := &ProviderSet{PkgPath: "example.com/h", VarName: "B"}
